@@ -147,8 +147,10 @@ def oracle_linear_layout(ctx, v, fun, dV, grad_v, layout):
 
 
 def case_cartesian(ctx, mesh, dv, du, grad_v, grad_u, layout, parallel=False):
-    m, R = mesh_of(mesh)
-    region = symbolise(ctx, R(m))
+    with ctx.concrete():
+        m, R = mesh_of(mesh)
+        region = R(m)
+    region = symbolise(ctx, region)
     d = m.dim
     v = fem.Field(region, dim=dv)
     nq, nc = region.dV.shape
@@ -168,8 +170,10 @@ def case_cartesian(ctx, mesh, dv, du, grad_v, grad_u, layout, parallel=False):
 
 def case_trim(ctx, bilinear):
     """3-D integrand on a 2-D (plane strain) field: only the in-plane part contributes"""
-    m, R = mesh_of("quad")
-    region = symbolise(ctx, R(m))
+    with ctx.concrete():
+        m, R = mesh_of("quad")
+        region = R(m)
+    region = symbolise(ctx, region)
     v = fem.FieldPlaneStrain(region, dim=2)
     nq, nc = region.dV.shape
     if not bilinear:
@@ -192,8 +196,10 @@ def _offsets(fields):
 
 def case_blocks(ctx, mode, with_none=False):
     """IntegralForm on a mixed container (u: dim 2 on quads, p: dim 1 on the constant dual region)"""
-    m, R = mesh_of("quad")
-    region = symbolise(ctx, R(m))
+    with ctx.concrete():
+        m, R = mesh_of("quad")
+        region = R(m)
+    region = symbolise(ctx, region)
     u = fem.Field(region, dim=2)
     p = fem.FieldDual(region, dim=1)
     p.region = symbolise(ctx, p.region, tag="p", grad=False)
@@ -255,8 +261,10 @@ TWO_PI = 2 * np.pi
 
 
 def case_axi(ctx, mode, grad=True):
-    m, R = mesh_of("quad")
-    region = symbolise(ctx, R(m))
+    with ctx.concrete():
+        m, R = mesh_of("quad")
+        region = R(m)
+    region = symbolise(ctx, region)
     v = fem.FieldAxisymmetric(region, dim=2)
     nq, nc = region.dV.shape
     Rad = ctx.array("R", (nq, nc), 0.5, 2)
@@ -327,8 +335,10 @@ def case_form_api(ctx, kind, sym=False, parallel=False):
     """Form expression API vs the equivalent array form"""
     from felupe.math import ddot, dot
 
-    m, R = mesh_of("quad")
-    region = symbolise(ctx, R(m))
+    with ctx.concrete():
+        m, R = mesh_of("quad")
+        region = R(m)
+    region = symbolise(ctx, region)
     u = fem.Field(region, dim=2)
     cont = fem.FieldContainer([u])
     nq, nc = region.dV.shape
@@ -359,6 +369,59 @@ def case_form_api(ctx, kind, sym=False, parallel=False):
         exp = IntegralFormCartesian(A, u, region.dV, u=u, grad_v=True, grad_u=True).assemble()
         ctx.equal("bilinear_form_equals_array_form", dense(ctx, got), dense(ctx, exp))
         ctx.equal("bilinear_form_is_defining_sum", dense(ctx, got), oracle_bilinear(ctx, u, u, np.asarray(A), region.dV, True, True))
+
+
+def case_form_api_mixed(ctx, sym=False, parallel=False):
+    """Form expression API on a mixed container whose fields live on DIFFERENT regions (bi-quadratic u,
+    bi-linear p); the off-diagonal block uses the gradient of the trial function"""
+    from felupe.math import ddot
+
+    with ctx.concrete():
+        m = fem.Rectangle(n=2).add_midpoints_edges().add_midpoints_faces()
+        region = fem.RegionBiQuadraticQuad(m)
+        cont = fem.FieldsMixed(region, n=2, grad=True)
+    u, p = cont.fields
+    symbolise(ctx, region)
+    symbolise(ctx, p.region, tag="p")
+    p.region.dV = region.dV
+    nq, nc = region.dV.shape
+    K = ctx.array("K", (2, nq, nc), -1, 1)
+    c0 = ctx.array("c0", (nq, nc), -1, 1)
+    if sym:
+        B = ctx.array("B", (2, 2, nq, nc), -1, 1)
+        A = np.einsum("iJqc,kLqc->iJkLqc", B, B)
+    else:
+        A = ctx.array("A", (2, 2, 2, 2, nq, nc), -1, 1)
+
+    @fem.Form(v=cont, u=cont, dx=region.dV, parallel=parallel)
+    def a():
+        def a_uu(v, w, A, K, c0):
+            return ddot(v.grad, ddot(A, w.grad, mode=(4, 2)))
+
+        def a_up(v, q_, A, K, c0):
+            # v . K (x) grad(p):  v_i K_i dp/dx_0 + v_i K_i dp/dx_1 weighted differently per axis
+            return (v * K).sum(0) * (q_.grad[0, 0] + 2 * q_.grad[0, 1])
+
+        def a_pp(r_, q_, A, K, c0):
+            return c0 * r_[0] * q_[0]
+
+        return [a_uu, a_up, a_pp]
+
+    got = a.assemble(v=cont, u=cont, kwargs={"A": A, "K": K, "c0": c0}, parallel=parallel, sym=sym)
+    off = _offsets(cont.fields)
+    n = off[-1]
+    exp = np.zeros((n, n), dtype=object)
+    exp[off[0] : off[1], off[0] : off[1]] = oracle_bilinear(ctx, u, u, np.asarray(A), region.dV, True, True, "iJkL")
+    # integrand of the (u,p) block in array form: f[i, L] = K_i * (1, 2)_L   (values of v, gradient of p)
+    f = np.empty((2, 2, nq, nc), dtype=object if ctx.sym else float)
+    for i in range(2):
+        f[i, 0] = np.asarray(K)[i]
+        f[i, 1] = 2 * np.asarray(K)[i]
+    Kup = oracle_bilinear(ctx, u, p, f, region.dV, False, True, "iL")
+    exp[off[0] : off[1], off[1] : off[2]] = Kup
+    exp[off[1] : off[2], off[0] : off[1]] = Kup.T
+    exp[off[1] : off[2], off[1] : off[2]] = oracle_bilinear(ctx, p, p, np.asarray(c0), region.dV, False, False, "")
+    ctx.equal("mixed_bilinear_form_is_defining_sum", dense(ctx, got), exp)
 
 
 def cases(tier):
@@ -396,4 +459,7 @@ def cases(tier):
     for sym in (False, True):
         for par in (False, True):
             out.append(("form_api", case_form_api, {"kind": "bilinear", "sym": sym, "parallel": par}))
+    for par in (False, True):
+        for sym in (False, True):
+            out.append(("form_api_mixed", case_form_api_mixed, {"sym": sym, "parallel": par}))
     return out
